@@ -80,7 +80,10 @@ def generate(rng, tier):
                                     'thread': rng.random() < 0.3,
                                     # the channel object is copied in between (frameworks copy or pickle what they are handed);
                                     # the copy is thrown away
-                                    'copied': rng.random() < 0.15})
+                                    'copied': rng.random() < 0.15,
+                                    # simulated seconds the caller lets pass before it asks again (think time, a GUI, a
+                                    # polling loop); now and then the wall clock is set back in between
+                                    'think': rng.choice([None] * 5 + [0.5, 2.0, 400.0, 90000.0, -3600.0])})
     # walking through a channel value by value, in order
     scan = [p for p, ch in w.chans.items() if 4 <= len(ch.prov) and 0 < ch.count <= 80 and ch.type is not None]
     if scan and rng.random() < 0.15:
@@ -213,7 +216,14 @@ def execute(case):
                         res.skipped_ops += 1
                         continue
                 mark = st.fs.mark()
-                op_ = {k: v for k, v in op.items() if k not in ('thread', 'copied', 'scan')}
+                op_ = {k: v for k, v in op.items() if k not in ('thread', 'copied', 'scan', 'think')}
+                if op.get('think'):
+                    res.probe('think-time')
+                    if op['think'] > 0:
+                        st.fs.clock.advance(op['think'])
+                    else:
+                        st.fs.clock.step_wall(op['think'])
+                        st.fs.clock.advance(1.0)
                 if op.get('scan'):
                     res.probe('ascending-index-scan')
                 if op.get('copied'):
